@@ -233,12 +233,35 @@ def one_history(workdir, seed, profile, blocks):
     mism, stats = cmp.compare(impl, model, limit=8)
     res['mismatches'] = mism
     res['stats'] = stats
+    res['roundtrip'] = cmp.roundtrip_analysis(impl)
+    return res
+
+
+def one_corpus(workdir, ops):
+    tag = 'corpus_' + os.path.basename(ops)[:-4]
+    impl = os.path.join(workdir, tag + '.impl')
+    model = os.path.join(workdir, tag + '.model')
+    res = {'seed': 0, 'profile': tag, 'ops': ops, 'impl': impl, 'model': model, 'keep_ops': True}
+    with open(ops, 'rb') as fi, open(impl, 'wb') as fo:
+        p = subprocess.run([os.path.join(BIN, 'hubsim'), 'run'], stdin=fi, stdout=fo, stderr=subprocess.PIPE, timeout=600)
+    if p.returncode != 0:
+        res['gen_error'] = p.stderr.decode(errors='replace')[-1500:]
+        return res
+    with open(ops, 'rb') as fi, open(model, 'wb') as fo:
+        p = subprocess.run([hubmodel()], stdin=fi, stdout=fo, stderr=subprocess.PIPE, timeout=600)
+    if p.returncode != 0:
+        res['model_error'] = p.stderr.decode(errors='replace')[-1500:]
+        return res
+    mism, stats = cmp.compare(impl, model, limit=8)
+    res['mismatches'] = mism
+    res['stats'] = stats
+    res['roundtrip'] = cmp.roundtrip_analysis(impl)
     return res
 
 
 def corr_plan(tier, seed):
     """(profile, seed, blocks) triples of a tier, derived from VERIF_SEED."""
-    profiles = ['lifecycle', 'money', 'quota', 'authz', 'gov', 'govdelay', 'extreme']
+    profiles = ['lifecycle', 'money', 'quota', 'authz', 'gov', 'govdelay', 'extreme', 'genesis']
     plan = []
     if tier == 'quick':
         for i, p in enumerate(profiles):
@@ -264,13 +287,18 @@ def run_corr(tier, seed, th):
         t0 = time.time()
         with ThreadPoolExecutor(max_workers=min(14, os.cpu_count() or 4)) as ex:
             results = list(ex.map(lambda a: one_history(cdir, a[1], a[0], a[2]), plan))
+        # minimised past failures and hand-written scenarios run with every check
+        cdir_corpus = os.path.join(ROOT, 'corpus')
+        for f in sorted(os.listdir(cdir_corpus)):
+            if f.endswith('.ops') and f != 'base.ops':
+                results.append(one_corpus(cdir, os.path.join(cdir_corpus, f)))
         summary = summarize(results)
         summary['wall_s'] = time.time() - t0
         summary['dir'] = cdir
         # keep only the files of failing histories
         for r in results:
-            if not r.get('mismatches') and not r.get('gen_error') and not r.get('model_error'):
-                for k in ('ops', 'impl', 'model'):
+            if not r.get('mismatches') and not r.get('gen_error') and not r.get('model_error') and not r.get('halts'):
+                for k in (('impl', 'model') if r.get('keep_ops') else ('ops', 'impl', 'model')):
                     try:
                         os.remove(r[k])
                     except OSError:
@@ -294,7 +322,16 @@ def summarize(results):
         for k in ('ops', 'accept', 'reject', 'halt'):
             tot[k] += st.get(k, 0)
         for h in st.get('monitor_hits', []):
-            hits.append(dict(h, seed=r['seed'], profile=r['profile'], ops=r['ops']))
+            try:
+                ops_lines = [l for l in open(r['ops']).read().split('\n') if l.strip() and not l.startswith('#')]
+            except OSError:
+                ops_lines = []
+            # operation lines that produce an answer block (everything after `start`, plus `start`)
+            answered = [l for l in ops_lines if l.split()[0] not in ('init', 'bal', 'key', 'infl')]
+            before = answered[:h['index']]
+            govdelay = any(re.match(r'gov space=(session|subscription) key=StatusChangeDelay', l) for l in before)
+            reimp = any(l.startswith('reimport') for l in before)
+            hits.append(dict(h, seed=r['seed'], profile=r['profile'], ops=r['ops'], delay_change_before=govdelay, reimport_before=reimp))
         for m in r['mismatches']:
             failing.append(dict(m, seed=r['seed'], profile=r['profile'], ops_file=r['ops']))
         # distinct (operation kind, outcome class) pairs, from the implementation's stream
@@ -315,7 +352,38 @@ def summarize(results):
         except OSError:
             pass
     tot['distinct'] = len(distinct)
-    return {'totals': tot, 'mismatches': failing, 'errors': errors, 'monitor_hits': hits,
+    halts = []
+    for r in results:
+        if 'gen_error' in r or 'model_error' in r:
+            continue
+        try:
+            with open(r['impl'], errors='replace') as f:
+                lines = f.read().split('\n')
+        except OSError:
+            continue
+        n = 0
+        for k, line in enumerate(lines):
+            if line.startswith('> '):
+                n += 1
+            if line.startswith('R halt:'):
+                govdelay = any(re.match(r'> gov space=(session|subscription) key=StatusChangeDelay', l) for l in lines[:k])
+                reimp = any(l.startswith('> reimport') for l in lines[:k])
+                halts.append({'seed': r['seed'], 'profile': r['profile'], 'ops': r['ops'], 'index': n, 'op': lines[k - 1][2:] if k else '',
+                              'message': line[7:][:200], 'delay_change_before': govdelay, 'reimport_before': reimp})
+                r['halts'] = True
+    rt = {'exports': 0, 'reimports': 0, 'export_rejects': [], 'reimport_diffs': []}
+    for r in results:
+        x = r.get('roundtrip')
+        if not x:
+            continue
+        rt['exports'] += x['exports']
+        rt['reimports'] += x['reimports']
+        for e in x['export_rejects']:
+            rt['export_rejects'].append(dict(e, seed=r['seed'], profile=r['profile'], ops=r['ops']))
+        for e in x['reimport_diffs']:
+            rt['reimport_diffs'].append(dict(e, seed=r['seed'], profile=r['profile'], ops=r['ops']))
+            r['halts'] = True   # keep the files
+    return {'totals': tot, 'mismatches': failing, 'errors': errors, 'monitor_hits': hits, 'halts': halts, 'roundtrip': rt,
             'distinct_list': sorted('%s => %s' % d for d in distinct)[:400]}
 
 
@@ -440,6 +508,8 @@ def check_property(prop, tier, seed):
     for m in rel[:3]:
         violations.append(('correspondence broken: %s at op %d of %s seed %d' % (m['kind'], m['index'], m['profile'], m['seed']), {'tie': 'T-corr', 'mismatch': m}))
     for h in corr['monitor_hits']:
+        if h.get('reimport_before') and prop != 'C12':
+            continue   # consequences of the round trip (F5) are C12's findings
         mon = h['monitor'].split()[1] if len(h['monitor'].split()) > 1 else ''
         if mon in P.get('monitors', []):
             sig = match_finding(findings, h)
@@ -447,6 +517,21 @@ def check_property(prop, tier, seed):
                 known_lines.append(sig)
             else:
                 violations.append(('monitor %s failed' % mon, {'monitor': h}))
+    if P.get('roundtrip'):
+        rtx = corr.get('roundtrip', {})
+        for e in rtx.get('export_rejects', []) + rtx.get('reimport_diffs', []):
+            sig = match_finding(findings, e)
+            if sig:
+                known_lines.append(sig)
+            else:
+                violations.append(('exported genesis invalid or altered by the round trip', {'failing_input': e['ops'], 'roundtrip': e}))
+    if P.get('halts'):
+        for h in corr.get('halts', []):
+            sig = match_finding(findings, h)
+            if sig:
+                known_lines.append(sig)
+            else:
+                violations.append(('block hook panicked (chain halt): ' + h['message'][:80], {'failing_input': h['ops'], 'halt': h}))
     if probe:
         for v in probe.get('violations', []):
             violations.append((v['msg'], v))
